@@ -461,6 +461,13 @@ def handle (st : DState) (j : Json) : R (DState × Json) := do
     let d ← jnat (← jfield j "d")
     let nets ← jlist jnet (← jfield j "nets")
     return (st, Json.mkObj [("nets", olist onet (NSG.relabelPrivate d nets))])
+  | "relabel_loop" =>
+    -- the whole retry loop over the values drawn one after the other
+    let ds ← jlist jnat (← jfield j "draws")
+    let nets ← jlist jnet (← jfield j "nets")
+    -- the networks come in the order of the game's table; the generator sorts them itself (sortNets)
+    let sorted := NSG.sortNets nets
+    return (st, Json.mkObj [("map", olist (fun (p : Net × Net) => Json.arr #[onet p.1, onet p.2]) (sorted.zip (NSG.relabelLoop ds 0 sorted)))])
   | "draw_ips" =>
     -- host addresses: every network's hosts paired with the first entries of its shuffled address list
     let parts ← jlist (fun p => do
